@@ -14,6 +14,7 @@ CONSTANTS
   DsHist = 0
   DsOps = {}
   NMon = 0
+  Neg = FALSE
   Shape = "any"
 INVARIANT TraceInv
 CHECK_DEADLOCK FALSE
